@@ -148,6 +148,15 @@ def set_flags(node, rng):
         set_flags(k, rng)
 
 
+def partner_interval(node):
+    """the partner factor of a (Boolean combination of) product(s)"""
+    return node.kids[1] if node.kind == "prod" else node.kids[0].kids[1]
+
+
+def first_factor(node):
+    return node.kids[0] if node.kind == "prod" else node.kids[0].kids[0]
+
+
 def frs(d):
     return {k: [str(a) for a in val] for k, val in d.items()}
 
@@ -184,10 +193,28 @@ def make_case(ctx, idx):
     elif mode in ("prod", "slice"):
         partner = [p for p in PARAMS if p not in params][0]
         b = Gen17(rng, params=params, p_dep=0.5).prim1(partner)
-        ga = Gen17(rng, params=params + ([partner] if rng.random() < 0.7 else []), p_dep=0.6,
-                   allow_translate=False, allow_rotate=False)
-        a = ga.solid(min(depth, 2), "x")
+        # the first factor may depend on the partner's coordinate, also below translations / rotations
+        # (handed down since /repo 414d4d6)
+        ga = Gen17(rng, params=params + ([partner] if rng.random() < 0.7 else []), p_dep=0.6)
+        a = ga.solid(min(depth, 2) if rng.random() < 0.6 else 3, "x")
+        if rng.random() < 0.35:
+            # forced: a shape that reads the partner's coordinate, below a motion (that may read it too)
+            gm = Gen17(rng, params=params + [partner], p_dep=0.9)
+            inner = gm.prim2("x")
+            if rng.random() < 0.5:
+                a = Node("translate", "x", [gm.vec([dy(rng, -2, 2), dy(rng, -2, 2)])], [inner])
+            else:
+                m = PF([c(1), ("*", c(dy(rng, -1, 1, 4) or Fr(1, 4)), v(rng.choice(params + [partner]))), c(0), c(1)])
+                a = Node("rotate", "x", [m, gm.vec([dy(rng, -1, 1), dy(rng, -1, 1)])], [inner])
+            if rng.random() < 0.4:
+                a = Node(rng.choice(["union", "cut", "inter"]), None, [], [a, ga.prim2("x")])
         node = Node("prod", None, [], [a, b])
+        if mode == "slice" and rng.random() < 0.4:
+            # a Boolean combination of two products over the same partner: every product operand has to be sliced,
+            # also one that depends on none of the fixed parameters
+            a2 = Gen17(rng, params=([partner] if rng.random() < 0.6 else params + [partner]), p_dep=0.6,
+                       allow_translate=False, allow_rotate=False).solid(1, "x")
+            node = Node(rng.choice(["union", "cut", "inter"]), None, [], [node, Node("prod", None, [], [a2, b])])
     elif mode == "bdry":
         g.allow_rotate = rng.random() < 0.3
         g.allow_translate = rng.random() < 0.3
@@ -218,7 +245,7 @@ def make_case(ctx, idx):
         for pr in prow:
             env = dict(sigma, **pr)
             try:
-                lo, hi = node.kids[1].pfs[0].eval(env)[0], node.kids[1].pfs[1].eval(env)[0]
+                lo, hi = partner_interval(node).pfs[0].eval(env)[0], partner_interval(node).pfs[1].eval(env)[0]
             except KeyError:
                 continue
             los.append(lo); his.append(hi)
@@ -257,14 +284,14 @@ def make_case(ctx, idx):
         for j, pr in enumerate(prow):
             env = dict(sigma, **pr)
             try:
-                lo, hi = node.kids[1].pfs[0].eval(env)[0], node.kids[1].pfs[1].eval(env)[0]
+                lo, hi = partner_interval(node).pfs[0].eval(env)[0], partner_interval(node).pfs[1].eval(env)[0]
             except KeyError:
                 continue
             for _ in range(3):
                 w = slice_at if mode == "slice" else lo + (hi - lo) * Fr(rng.randint(1, 7), 8)
                 pts = []
                 try:
-                    c05.near_points(node.kids[0], dict(env, **{partner: [w]}), rng, pts)
+                    c05.near_points(first_factor(node), dict(env, **{partner: [w]}), rng, pts)
                 except Exception:
                     pts = []
                 extra += [({"x": [f32(a) for a in p], partner: [f32(w)]}, j) for p in pts if len(p) == 2]
@@ -515,8 +542,9 @@ def case_lines(case):
     s_a = {p: val for p, val in sigma.items() if p not in stage_b}
     s_b = {p: val for p, val in sigma.items() if p in stage_b}
     if case["mode"] == "slice":
-        a, b = node.kids
-        return [f"slices {TOL} {PTOL} {a.tokens()} {b.tokens()} {env_tokens(sigma)} {rows_tokens(case['rows'], case['prow'])}"]
+        prods = [node] if node.kind == "prod" else node.kids
+        return [f"slices {TOL} {PTOL} {p_.kids[0].tokens()} {p_.kids[1].tokens()} {env_tokens(sigma)} {rows_tokens(case['rows'], case['prow'])}"
+                for p_ in prods]
     lines = [f"fv {dt} {env_tokens(s_a)} {env_tokens(s_b)}"]
     for pr in case["prow"]:
         lines.append(f"ground {dt} {env_tokens(sigma)} {env_tokens(unfrs(pr))}")
@@ -529,7 +557,26 @@ def case_lines(case):
 def expand(case, raw):
     """replies in the one-line-per-row layout the judges read"""
     if case["mode"] == "slice":
-        return raw[0].split(";")
+        if len(raw) == 1:
+            return raw[0].split(";")
+        # union / cut / intersection of two sliced products: the membership rule of the Boolean node applied
+        # to the two slice answers (and to the two answers of the original), the smaller margins, both variable sets
+        op = geomgen.from_json(case["dom"]).kind
+        comb = {"union": lambda x, y: x or y, "cut": lambda x, y: x and not y, "inter": lambda x, y: x and y}[op]
+        out = []
+        for ra, rb in zip(raw[0].split(";"), raw[1].split(";")):
+            a_, b_ = ra.split(), rb.split()
+            def both(i):
+                if a_[i] == "none" or b_[i] == "none":
+                    return "none"
+                return "1" if comb(a_[i] == "1", b_[i] == "1") else "0"
+            def mn(i):
+                if a_[i] == "none" or b_[i] == "none":
+                    return "none"
+                return str(min(Fr(a_[i]), Fr(b_[i])))
+            fv = sorted(set(vset(a_[3])) | set(vset(b_[3])))
+            out.append(f"{both(0)} {both(1)} {mn(2)} {','.join(fv) if fv else '-'} {mn(4)}")
+        return out
     k = len(case["prow"])
     return raw[:1 + k] + raw[1 + k].split(";") + raw[2 + k:]
 
@@ -815,7 +862,7 @@ def judge_slice(case, impl, replies, rep, call):
     for pr in case["prow"]:
         env = unfrs(dict(case["sigma"], **pr))
         try:
-            lo, hi = node.kids[1].pfs[0].eval(env)[0], node.kids[1].pfs[1].eval(env)[0]
+            lo, hi = partner_interval(node).pfs[0].eval(env)[0], partner_interval(node).pfs[1].eval(env)[0]
             inside_partner = inside_partner and lo <= w <= hi
         except KeyError:
             inside_partner = False
@@ -997,9 +1044,10 @@ def user_volume_stream(ctx, rep):
 
 def malformed_stream(ctx, rep):
     """expressions the constructors reject (a parameter depends on the node's own variable, the second factor
-    of a product depends on the first, both directions) and the one `Dom.wf` excludes although the constructors
-    accept it (dependence on the product partner below a motion node): model and code must reject the same
-    inputs.  Correspondence only — malformed inputs never feed the property oracles."""
+    of a product depends on the first, both directions, a translation vector depending on the own variable):
+    rejected by the code iff `Dom.wf = false`; controls (dependent product, dependence on the partner below a
+    motion node — accepted since /repo 414d4d6) must build and be `wf`.  Correspondence only — malformed inputs
+    never feed the property oracles."""
     tp = common.use_repo()
     import torch
     rng = ctx.rng
@@ -1015,7 +1063,7 @@ def malformed_stream(ctx, rep):
             ("product:second-depends-on-first", Node("prod", None, [], [circ("x"), itv("t", ("x", 1))]), False),
             ("product:both-directions", Node("prod", None, [], [circ("x", ("t", 0)), itv("t", ("x", 0))]), False),
             ("translate:vector-depends-on-own-variable", Node("translate", "x", [PF([v("x", 0), c(0)])], [circ("x")]), False),
-            ("product:dependence-below-motion", Node("prod", None, [], [Node("translate", "x", [PF([c(k()), c(k())])], [circ("x", ("t", 0))]), itv("t")]), True),
+            ("control:dependence-below-motion", Node("prod", None, [], [Node("translate", "x", [PF([c(k()), c(k())])], [circ("x", ("t", 0))]), itv("t")]), True),
             ("control:dependent-product", Node("prod", None, [], [circ("x", ("t", 0)), itv("t", ("D", 0))]), True),
         ]
     lines = [f"fv {n.tokens()} 0 0" for _, n, _ in cases]
@@ -1034,10 +1082,6 @@ def malformed_stream(ctx, rep):
             continue
         if wf:
             rep.disagree("malformed stream: Dom.wf accepts an expression the code cannot use", dict(stream="malformed", kind=name, expression=node.tokens()), err, "wf = true")
-        if builds:
-            # accepted by the constructors; the code hands the partner coordinate down since /repo 414d4d6, the base
-            # model (Model/Geom.lean containsAux) follows in a coordinated step: counted, not judged
-            rep.count("base-model-pending:dependence-below-motion")
 
 
 def rebinding_stream(ctx, rep):
